@@ -50,6 +50,17 @@ def proof(name, functions=(), assumptions=(), family=None, stubs=(), bounded_onl
     return deco
 
 
+def reuse(src, new_name):
+    """register an existing proof under another property's name: the same contract is an obligation of both properties
+    (modular proofs are shared, the check of each property still discharges them itself)"""
+    p = PROOFS[src]
+    q = ProofDef(new_name, p.fn, new_name.split("/")[0], list(p.functions), p.assumptions, p.family, list(p.stubs),
+                 p.doc, p.bounded_only, p.thorough_only)
+    q.shards = p.shards
+    PROOFS[new_name] = q
+    return q
+
+
 class Outcome:
     def __init__(self, kind, value=None, exc=None):
         self.kind = kind        # 'ret' | 'exc'
